@@ -536,9 +536,10 @@ int hawk_rtx_truncrec (hawk_rtx_t* rtx, hawk_oow_t nflds)
 
 			if (vtype == HAWK_VAL_NIL)
 			{
-				/* OFS not set */
-				ofs_ptr = HAWK_T(" ");
-				ofs_len = 1;
+				/* OFS has been assigned an unset value. it is an empty string
+				 * as in the text that print and the assignment to $N use */
+				ofs_ptr = HAWK_T("");
+				ofs_len = 0;
 			}
 			else
 			{
